@@ -775,6 +775,7 @@ class _GroupBy(ToolBase):
                             break
                     if closes[(n - 1) % 4]:
                         await group.aclose()
+                        yield ("group-closed",)  # (a point at which the consumer may stop using the groupby)
             finally:
                 await gb.aclose()
 
@@ -817,6 +818,8 @@ class _GroupBy(ToolBase):
                         old = None
                     if peek < 3 and taken >= peek:
                         break
+                if closes[(n - 1) % 4]:
+                    yield ("group-closed",)
 
         return driver()
 
